@@ -115,3 +115,198 @@ def evalClass : ClassE → CC
   | .minus ng items sub => (evalGroup ng items).isub (evalClass sub)
 
 end EPV.Regex
+
+/-! ### the class scanner
+
+Transcription of `patterns.py :: parse_character_class` (lines 52-115 after `fix:` a738bef),
+`CharacterClass.add` with its `_re_char_set.split`, and
+`codepoints.py :: iterparse_character_subset`.  Every `RegexError` / `IndexError` is `none`. -/
+namespace EPV.Regex
+
+/-- the Unicode subsets the implementation looks up while scanning a class -/
+structure MTables where
+  /-- `s_shortcut` ... `w_shortcut` by lower-case letter (`s d i c w`) -/
+  esc : Ch → SetE
+  /-- `unicode_subset(name)`: categories and `Is` blocks; `none` = `RegexError` -/
+  prop : List Ch → Option SetE
+  deriving Inhabited
+
+def chIn (c : Ch) (s : String) : Bool := s.toList.any fun d => d.toNat == c
+
+/-- `iterparse_character_subset(s)` (codepoints.py:117-205, `expand_ranges=False`): the loop over
+`k`, with the local variables `escaped`, `on_range`, `char`; yields half-open ranges -/
+def iterparse (s : Array Ch) : Nat → Nat → Bool → Bool → Ch → List (Nat × Nat) → Option (List (Nat × Nat))
+  | 0, _, _, _, _, _ => none
+  | fuel + 1, k, escaped, onRange, char, acc =>
+    let length := s.size
+    if k ≥ length then
+      some (if escaped then (92, 93) :: acc else acc)              -- `if escaped: yield ord('\\')`
+    else
+    let c := s[k]!
+    let one (x : Ch) : Nat × Nat := (x, x + 1)
+    if k == 0 then
+      if c == 92 then iterparse s fuel 1 true onRange c acc
+      else if (c == 91 || c == 93) && length > 1 then none
+      else if length ≤ 2 || s[1]! != 45 then iterparse s fuel 1 escaped onRange c (one c :: acc)
+      else iterparse s fuel 1 escaped onRange c acc
+    else if c == 45 then
+      if escaped || k == length - 1 then iterparse s fuel (k + 1) false onRange c (one c :: acc)
+      else if onRange then iterparse s fuel (k + 1) escaped false c (one c :: acc)
+      else
+        -- parse a character range: `k = next(...)`, `end_char = s[k]`
+        let k1 := k + 1
+        let e := s[k1]!
+        let special := e == 92 && k1 < length - 1
+        if special && chIn s[k1 + 1]! "sSdDiIcCwWpP" then none
+        else
+          let (k2, e) := if special && chIn s[k1 + 1]! "-|.^?*+{}()[]" then (k1 + 1, s[k1 + 1]!) else (k1, e)
+          if char > e then none
+          else iterparse s fuel (k2 + 1) escaped true char ((char, e + 1) :: acc)
+    else if chIn c "|.^?*+{}()" then iterparse s fuel (k + 1) false false c (one c :: acc)
+    else if c == 91 || c == 93 then
+      if !escaped && length > 1 then none
+      else if k ≥ length - 2 || s[k + 1]! != 45 then iterparse s fuel (k + 1) false false c (one c :: acc)
+      else iterparse s fuel (k + 1) false false c acc
+    else if c == 92 then
+      if escaped then iterparse s fuel (k + 1) false false 92 (one 92 :: acc)
+      else iterparse s fuel (k + 1) true onRange char acc
+    else
+      let acc := if escaped then one 92 :: acc else acc
+      if k ≥ length - 2 || s[k + 1]! != 45 then iterparse s fuel (k + 1) false false c (one c :: acc)
+      else iterparse s fuel (k + 1) false false c acc
+
+/-- `UnicodeSubset.update(str)` as a set: the union of what `iterparse_character_subset` yields -/
+def parseSubset (s : List Ch) : Option SetE :=
+  (iterparse s.toArray (s.length + 2) 0 false false 0 []).map SetE.ranges
+
+/-- does an escape token of `_re_char_set` start here?  returns its length.
+`\\[nrt|.\-^?*+{}()\]sSdDiIcCwW]`  or  `\\[pP]{[a-zA-Z\-0-9]+}` -/
+def escTokenLen : List Ch → Option Nat
+  | 92 :: e :: rest =>
+    if chIn e "nrt|.-^?*+{}()]sSdDiIcCwW" then some 2
+    else if e == 112 || e == 80 then
+      match rest with
+      | 123 :: rest' =>
+        let isN (c : Ch) : Bool := (48 ≤ c && c ≤ 57) || (65 ≤ c && c ≤ 90) || (97 ≤ c && c ≤ 122) || c == 45
+        let name := rest'.takeWhile isN
+        match rest'.dropWhile isN with
+        | 125 :: _ => if name.isEmpty then none else some (name.length + 4)
+        | _ => none
+      | _ => none
+    else none
+  | _ => none
+
+/-- `_re_char_set.split(charset)`: literal text / escape token, alternating.  `p2`, `p1` are the two
+characters before the current position (lookbehind `(?<!.-)`; `.` does not match a newline). -/
+def reSplit : Nat → List Ch → Option Ch → Option Ch → List Ch → List (Bool × List Ch)
+  | 0, _, _, _, cur => [(false, cur.reverse)]
+  | _, [], _, _, cur => [(false, cur.reverse)]
+  | fuel + 1, c :: rest, p2, p1, cur =>
+    let blocked := p1 == some 45 && (match p2 with | some x => x != 10 | none => false)
+    match (if blocked then none else escTokenLen (c :: rest)) with
+    | some n =>
+      let tok := (c :: rest).take n
+      let rest' := (c :: rest).drop n
+      let q1 := tok.getLast?
+      let q2 := (tok.dropLast).getLast?
+      (false, cur.reverse) :: (true, tok) :: reSplit fuel rest' q2 q1 []
+    | none => reSplit fuel rest p1 (some c) (c :: cur)
+
+/-- `_re_unicode_ref.search(part)`: some `\p{name}` / `\P{name}` with `name` in `[\w-]+` occurs -/
+def hasUnicodeRef : List Ch → Bool
+  | [] => false
+  | 92 :: e :: 123 :: rest =>
+    let isW (c : Ch) : Bool := (48 ≤ c && c ≤ 57) || (65 ≤ c && c ≤ 90) || (97 ≤ c && c ≤ 122) || c == 95 || c == 45 || c ≥ 128
+    ((e == 112 || e == 80) && !(rest.takeWhile isW).isEmpty && (rest.dropWhile isW).head? == some 125)
+      || hasUnicodeRef (e :: 123 :: rest)
+  | _ :: rest => hasUnicodeRef rest
+
+/-- one part of the split in `CharacterClass.add` (character_classes.py:160-190) -/
+def addPart (T : MTables) (c : CC) (part : List Ch) : Option CC :=
+  match part with
+  | [92, e] =>
+    if chIn e "sdicw" then some (c.addItem ⟨false, T.esc e⟩)
+    else if chIn e "SDICW" then some (c.addItem ⟨true, T.esc (e + 32)⟩)
+    else if e == 110 then some (c.addItem ⟨false, .single 10⟩)
+    else if e == 114 then some (c.addItem ⟨false, .single 13⟩)
+    else if e == 116 then some (c.addItem ⟨false, .single 9⟩)
+    else if chIn e "|.-^?*+{}()[]\\" then some (c.addItem ⟨false, .single e⟩)
+    else if e == 112 || e == 80 then none                       -- `\p` without `{..}`
+    else (parseSubset part).map fun s => c.addItem ⟨false, s⟩
+  | 92 :: e :: rest =>
+    if e == 112 || e == 80 then
+      if !hasUnicodeRef part then none else
+      let name := rest.drop 1 |>.dropLast                       -- `part[3:-1]`
+      match T.prop name with
+      | some s => some (c.addItem ⟨e == 80, s⟩)
+      | none => if (rest.drop 1).take 2 == [73, 115] then some (c.addItem ⟨false, .all⟩) else none
+    else (parseSubset part).map fun s => c.addItem ⟨false, s⟩
+  | _ => (parseSubset part).map fun s => c.addItem ⟨false, s⟩
+
+/-- `CharacterClass(charset)` -/
+def mkClass (T : MTables) (charset : List Ch) : Option CC :=
+  (reSplit (charset.length + 1) charset none none []).foldlM (fun c p => addPart T c p.2) CC.new
+
+/-- `HYPHENS_PATTERN = (?<!\\)--` -/
+def hasDoubleHyphen : Option Ch → List Ch → Bool
+  | p, 45 :: 45 :: rest => p != some 92 || hasDoubleHyphen (some 45) (45 :: rest)
+  | _, c :: rest => hasDoubleHyphen (some c) rest
+  | _, [] => false
+
+/-- `INVALID_HYPHEN_PATTERN = [^\\]-[^\\]-[^\\]` -/
+def hasInvalidHyphen : List Ch → Bool
+  | a :: 45 :: b :: 45 :: c :: rest =>
+    (a != 92 && b != 92 && c != 92) || hasInvalidHyphen (45 :: b :: 45 :: c :: rest)
+  | _ :: rest => hasInvalidHyphen rest
+  | [] => false
+
+/-- the `while True` loop of `parse_character_class`: find the end of the group (`]` or `-[`),
+skipping escapes; returns (group text, rest starting at `]` or `-[`) -/
+def scanGroup : List Ch → List Ch → Option (List Ch × List Ch)
+  | [], _ => none                                        -- IndexError
+  | 91 :: _, _ => none                                   -- invalid character '['
+  | 92 :: d :: rest, acc =>
+    if 48 ≤ d && d ≤ 57 then none                        -- back-reference in class
+    else scanGroup rest (d :: 92 :: acc)
+  | 92 :: [], _ => none
+  | 93 :: rest, acc => some (acc.reverse, 93 :: rest)
+  | 45 :: 91 :: rest, acc => some (acc.reverse, 45 :: 91 :: rest)
+  | c :: rest, acc => scanGroup rest (c :: acc)
+
+/-- `parse_character_class()` with `pattern[pos] == '['` already consumed; returns the class and
+the text after its closing `]` -/
+def parseClassM (T : MTables) (v10 : Bool) : Nat → List Ch → Option (CC × List Ch)
+  | 0, _ => none
+  | fuel + 1, inp =>
+    let (ng, inp) := match inp with
+      | 94 :: rest => (true, rest)
+      | _ => (false, inp)
+    match scanGroup inp [] with
+    | none => none
+    | some (grp, rest) =>
+      if grp.isEmpty then none                                                   -- empty class
+      else if hasDoubleHyphen none grp && grp.length > 2 then none               -- '--'
+      else if v10 && hasInvalidHyphen grp then none
+      else
+        match mkClass T grp with
+        | none => none
+        | some c =>
+          let c := if ng then c.complement else c
+          match rest with
+          | 93 :: rest' => some (c, rest')
+          | _ :: _ :: rest' =>                                                   -- `-[`
+            match parseClassM T v10 fuel rest' with
+            | some (sub, 93 :: rest'') => some (c.isub sub, rest'')
+            | _ => none
+          | _ => none
+
+/-- a whole pattern that is one class expression `[...]` -/
+def parseClassText (T : MTables) (v10 : Bool) (s : List Ch) : Option CC :=
+  match s with
+  | 91 :: rest =>
+    match parseClassM T v10 (rest.length + 1) rest with
+    | some (c, []) => some c
+    | _ => none
+  | _ => none
+
+end EPV.Regex
